@@ -6,13 +6,16 @@
 
    - [open_ok]   : the list is strictly descending by slot (so there is at most one open upvalue per slot and
                    no address occurs twice), every node is an open upvalue object pointing INSIDE the stack array
-                   (slot < capacity; see [open_slot_may_be_dead] below: "slot < height" is NOT an invariant of
-                   the VM), and the list is complete: every open upvalue object of the heap is in it.
+                   (slot < capacity; see VmUpvalueSem.open_slot_may_be_dead: "slot < height" is NOT an invariant
+                   of the VM), and the list is complete: every open upvalue object of the heap is in it.
    - [vm_ok]     : open_ok + the height of the value stack and every frame offset are below the capacity.
-   - [step_vm_ok]: every instruction (every opcode, every native of the menu, re-entry included) keeps vm_ok.
-   - capture semantics: [register_existing], [register_new], [read_upvalue_open], [write_upvalue_open],
-     [close_from_spec] (CloseUpvalue / Return), [read_upvalue_closed], [write_upvalue_closed],
-     [closure_creation], [call_closure_body]. *)
+   - [keep s s1] : what the helpers of the instruction functions do to a state: same list head, same capacity, same
+                   frames, the upvalue objects are the same objects, every other object is a later state of itself
+                   ([heap_mono]), closedness of closures ([clo_ok]) is kept.  vm_ok is closed under keep.
+   - [close_from_spec], [walk_open_spec], [link_new_spec]: _close_upvalues and register_upvalue on a good list.
+   Files: VmUpvalueStep.v (every instruction keeps vm_ok; RegisterUpvalue), VmUpvalueSem.v (capture semantics on single
+   instructions), VmUpvalueFrame.v (the same proofs generic in the invariant: quiet instructions, stability of objects,
+   closedness), VmUpvalueWitness.v (compiled witness programs). *)
 From Coq Require Import NArith ZArith List Lia Bool Sorted.
 From Cao Require Import ListUtil Bits Stacks Vm.
 Import ListNotations.
